@@ -443,6 +443,7 @@ func (w *World) Apply(op Op) (out *Outcome) {
 // IntendedEntry is one entry of the intended store as read back through the cache API.
 type IntendedEntry struct {
 	Path  string // canonical path
+	P     *sdcpb.Path
 	Owner string
 	Prio  int32
 	Val   string
@@ -549,7 +550,7 @@ func (w *World) ReadIntended() ([]IntendedEntry, error) {
 			} else {
 				val = CanonTV(tv)
 			}
-			res = append(res, IntendedEntry{Path: cp, Owner: u.Owner(), Prio: u.Priority(), Val: val})
+			res = append(res, IntendedEntry{Path: cp, P: sp, Owner: u.Owner(), Prio: u.Priority(), Val: val})
 			n++
 		}
 		if n != len(metas[k]) {
@@ -578,6 +579,66 @@ func (w *World) ReadStore(st cachepb.Store) (map[string]string, error) {
 		res[CanonPath(sp)] = val
 	}
 	return res, nil
+}
+
+// StoredLeaf is one leaf of the CONFIG / STATE store.
+type StoredLeaf struct {
+	P   *sdcpb.Path
+	Val string
+}
+
+// ReadStorePaths dumps the CONFIG or STATE store with structured paths.
+func (w *World) ReadStorePaths(st cachepb.Store) (map[string]StoredLeaf, error) {
+	ctx := context.Background()
+	upds := w.Raw.Read(ctx, w.Name, &cache.Opts{Store: st}, [][]string{{}}, 0)
+	res := map[string]StoredLeaf{}
+	for _, u := range upds {
+		sp, err := w.U.StringsToPath(ctx, u.GetPath())
+		if err != nil {
+			return nil, err
+		}
+		tv, err := u.Value()
+		val := "<undecodable>"
+		if err == nil {
+			val = CanonTV(tv)
+		}
+		res[CanonPath(sp)] = StoredLeaf{P: sp, Val: val}
+	}
+	return res, nil
+}
+
+// PreloadStore writes leaves (typed by the schema, key leaves included) into the CONFIG or STATE store.
+func (w *World) PreloadStore(st cachepb.Store, leaves []Leaf) error {
+	ctx := context.Background()
+	var upds []*cache.Update
+	seen := map[string]bool{}
+	add := func(p *sdcpb.Path, tv *sdcpb.TypedValue) error {
+		c := CanonPath(p)
+		if seen[c] {
+			return nil
+		}
+		seen[c] = true
+		se, err := w.U.GetSchema(ctx, p)
+		if err != nil {
+			return fmt.Errorf("preload %s: %w", c, err)
+		}
+		ctv, err := utils.ConvertTypedValueToYANGType(se, tv)
+		if err != nil {
+			return fmt.Errorf("preload %s: %w", c, err)
+		}
+		b, err := proto.Marshal(ctv)
+		if err != nil {
+			return err
+		}
+		upds = append(upds, cache.NewUpdate(utils.ToStrings(p, false, false), b, 0, "", 0))
+		return nil
+	}
+	for _, l := range leaves {
+		if err := add(l.P.Sdcpb(), l.Value()); err != nil {
+			return err
+		}
+	}
+	return w.Raw.Modify(ctx, w.Name, &cache.Opts{Store: st}, nil, upds)
 }
 
 // State is a canonical snapshot of everything a later transaction can observe.
